@@ -250,7 +250,7 @@ fn enumerate(tier: Tier) -> Box<dyn Iterator<Item = PairCase>> {
 pub fn property() -> Property {
     Property {
         id: "C01",
-        rule: "Correlated pairs (A, B) of version strings built from tokens (numbers incl. leading zeros and up to 18 digits, '.', '_', alpha/beta/pre/rc/pl and nb<N> in random case, single letters in both cases, ignorable junk incl. non-ASCII, near-modifiers); B is A after 0-3 edits. A further stream enumerates completely all ordered pairs of versions made of at most 2 (thorough: 3) of the 16 tokens 0 1 2 10 . _ alpha beta pre rc pl nb1 nb a B é. Each pair is judged for all four operators through Pattern::matches and Dewey::matches in both directions and through best_match, against reference model M-dewey. Non-trivial = A and B differ textually AND their component sequences differ in length or share a common prefix of >= 1 component (the decision is not taken on the first number). Distinct = distinct (A,B) strings. Cases inside known finding KF-1 (letter encoded by ASCII code instead of alphabet rank changes the verdict) are judged leniently and counted under known_finding_hits.",
+        rule: "Correlated pairs (A, B) of version strings built from tokens (numbers incl. leading zeros and up to 18 digits, '.', '_', alpha/beta/pre/rc/pl and nb<N> in random case, single letters in both cases, ignorable junk incl. non-ASCII, near-modifiers); B is A after 0-3 edits. A further stream enumerates completely all ordered pairs of versions made of at most 2 (thorough: 3) of the 16 tokens 0 1 2 10 . _ alpha beta pre rc pl nb1 nb a B é. Each pair is judged for all four operators through Pattern::matches and Dewey::matches in both directions and through best_match, against reference model M-dewey. Non-trivial = A and B differ textually AND their component sequences differ in length or share a common prefix of >= 1 component (the decision is not taken on the first number). Distinct = distinct (A,B) strings. Cases inside known finding KF-1 (letter encoded by ASCII code instead of alphabet rank changes the verdict) are judged leniently and counted under known_finding_hits. Generators also draw, at low weight, tokens from the source-literal dictionary (every string / byte / character literal of the library's own source, collected at build time and filtered by this domain's character class); number tokens include 2^k and 10^k with neighbours; one pair in sixty shares a prefix of a chosen number (0-1300) of components. Stream real-versions: the versions of real pkgsrc packages against character-level edits of themselves and against each other.",
         assumptions: vec![
             "M-dewey is written from the property statement (pkg_install itself is not available offline)",
             "digit runs are capped at 18 digits (domain of the property)",
